@@ -182,6 +182,58 @@ pub fn run(tier: Tier) {
         ctx.add_part(part);
     }
 
+    // how much of the generator's output the salt depends on: flip each of the first 2048 generator bits in turn
+    {
+        const NBITS: usize = 2048;
+        use rayon::prelude::*;
+        let mut part = Part::new("salt_entropy_by_bit_influence", "sign512(k1, mA) and sign1024(k3, mA) with the signer's generator replaced by a fixed word stream; for each of the first 2048 generator bits the same call is repeated with that bit flipped: the set of bits whose flip changes the salt must have at least 320 elements (a salt that is a function of fewer generator bits repeats after far fewer than 2^160 signatures), and two different streams give different salts");
+        for variant in [512usize, 1024] {
+            let run = |stream: u64, flip: Option<usize>| -> Result<Vec<u8>, String> {
+                let k = keys.clone();
+                crate::ctx::catch(move || {
+                    falcon_rust::verif_hooks::install_rng(Box::new(crate::envrng::WordStream::new(stream, 1 << 20, flip)));
+                    let r = std::panic::catch_unwind(std::panic::AssertUnwindSafe(|| if variant == 512 { V512::sig_to_bytes(&V512::sign(MA, &k.k1)) } else { V1024::sig_to_bytes(&V1024::sign(MA, &k.k3)) }));
+                    falcon_rust::verif_hooks::uninstall_rng();
+                    match r {
+                        Ok(s) => s[1..41].to_vec(),
+                        Err(e) => std::panic::resume_unwind(e),
+                    }
+                })
+            };
+            let (base, again, other) = (run(70, None), run(70, None), run(71, None));
+            let (Ok(base), Ok(again), Ok(other)) = (base, again, other) else {
+                ctx.violation(format!("sign-panic:word-stream:n={}", variant), format!("sign{} panicked under a fixed word stream", variant), json!({"kind":"entropy","variant":variant}));
+                continue;
+            };
+            part.states += 3;
+            part.transitions += 3;
+            part.validated += 3;
+            if base != again {
+                // the salt does not come from the hooked generator at all: nothing can be said here
+                ctx.cap(&format!("C08: the salt of sign{} is not a function of the hooked generator (two runs on the same word stream differ); the influence count is skipped", variant));
+                continue;
+            }
+            if base == other {
+                ctx.violation(format!("salt-ignores-generator:n={}", variant), format!("sign{}: two different generator streams give the same salt {}", variant, hex(&base[..8])), json!({"kind":"entropy","variant":variant}));
+            }
+            let influencing: Vec<usize> = (0..NBITS).into_par_iter().filter(|&b| matches!(run(70, Some(b)), Ok(s) if s != base)).collect();
+            part.states += NBITS as u64;
+            part.transitions += NBITS as u64;
+            part.validated += NBITS as u64;
+            part.outcome(format!("n={}: {} of the first {} generator bits influence the salt", variant, influencing.len(), NBITS));
+            part.set(&format!("influencing_bits_{}", variant), json!(influencing.len()));
+            if influencing.len() < 320 {
+                ctx.violation(
+                    format!("salt-entropy:n={}", variant),
+                    format!("sign{}: the 320-bit salt depends on only {} of the first {} generator bits (e.g. {:?}...): it carries at most {} bits of entropy, and a repeat is expected after about 2^{} signatures", variant, influencing.len(), NBITS, &influencing[..influencing.len().min(6)], influencing.len(), influencing.len() / 2),
+                    json!({"kind":"entropy","variant":variant,"influencing_bits":influencing.len()}),
+                );
+            }
+        }
+        part.exhaustive = true;
+        ctx.add_part(part);
+    }
+
     crate::e5::run_part(&mut ctx, "sign");
     // no constant byte position
     let constant: Vec<usize> = (0..40).filter(|&i| byte_values[i].len() < 2).collect();
